@@ -688,6 +688,21 @@ def spelling_groups():
                                ('shift-count', (Op('<<', x, C(1)), Op('<<', x, C(31))))):
             order.append(('%s:const-twin:%s' % (op, lbl_), [Op(op, p_, q_), Op(op, q_, p_)]))
             order.append(('%s:const-twin3:%s' % (op, lbl_), [Op(op, p_, q_, y), Op(op, y, Op(op, q_, p_)), Op(op, Op(op, p_, y), q_)]))
+    # long operand lists (an unrolled checksum, a sum of many cells): the same operands flat, nested to the left, nested to the right and with the pair that cancels / repeats kept
+    # together in a short inner list -- the result may not depend on how many operands one node holds
+    for n_ in (9, 17):
+        cells = [ExprMem(Op('+', x, C(4 * i_))) for i_ in range(n_)]
+        for op in ('^', '+', '|', '&'):
+            twin = Op('-', y) if op == '+' else y
+            flat = Op(op, y, *(cells + [twin]))
+            left = y
+            for t_ in cells + [twin]:
+                left = Op(op, left, t_)
+            right = twin
+            for t_ in reversed([y] + cells):
+                right = Op(op, t_, right)
+            paired = Op(op, Op(op, y, twin), Op(op, *cells))
+            order.append(('%s:long%d' % (op, n_), [flat, left, right, paired]))
     order.append(('mem-addr', [ExprMem(Op('+', x, y)), ExprMem(Op('+', y, x))]))
     order.append(('mem-addr3', [ExprMem(Op('+', x, y, C(4)), 8), ExprMem(Op('+', C(4), y, x), 8), ExprMem(Op('+', Op('+', y, C(4)), x), 8)]))
     order.append(('nested-ops', [Op('+', Op('*', x, y), z), Op('+', z, Op('*', y, x))]))
